@@ -200,6 +200,10 @@ class Program:
         r = rng.random()
         if r < 0.04:
             return g.gen_misc()
+        if r < 0.055:
+            op = g.gen_self_volumes(sess)
+            if op is not None:
+                return op
         kind = rng.choice(["add", "remove", "aspirate", "dispense", "add", "remove", "transfer", "distribute"])
         if self.world["device"] == "evo" and rng.random() < 0.12:
             ek = rng.choice(["evo_aspirate", "evo_dispense"])
